@@ -640,6 +640,8 @@ namespace Pistache::Http::Experimental
             const bool result = parser.feed(buffer, totalBytes);
             if (!result)
             {
+                // the response is abandoned: its bytes must not be seen by the next one
+                parser.reset();
                 handleError("Client: Too long packet");
                 return;
             }
@@ -663,10 +665,17 @@ namespace Pistache::Http::Experimental
                     if (onDone)
                         onDone();
                 }
+                else
+                {
+                    // a response nobody is waiting for (its request timed out):
+                    // drop it instead of leaving the parser in its final state
+                    parser.reset();
+                }
             }
         }
         catch (const std::exception& ex)
         {
+            parser.reset();
             handleError(ex.what());
         }
     }
